@@ -38,6 +38,35 @@ CORE = ('<?xml version="1.0" encoding="UTF-8" standalone="yes"?><cp:coreProperti
         "<cp:keywords>{keywords}</cp:keywords><dc:description>{description}</dc:description></cp:coreProperties>")
 
 
+# LAYOUT "decoys": in front of the genuine property elements the part carries (a) vendor elements with the SAME LOCAL NAME in a
+# foreign namespace (a publishing tool's series block: <v:title>), (b) the same qualified name one level down inside a vendor
+# wrapper (<v:block><dc:title>), (c) the local name without prefix (default / no namespace).  A reader that selects the property
+# by local name only, by a descendant path or by its first textual match reports a decoy instead of the stored property.
+LAYOUT = "plain"
+VENDOR = "http://example.org/ns/vendor/1.0"
+
+
+def decoys(pairs, unprefixed=True):
+    """pairs: [(property, qualified tag)] -> XML text to put in front of the genuine elements ('' in the plain layout)."""
+    if LAYOUT != "decoys":
+        return ""
+    out = []
+    for p, t in pairs:
+        local = t.split(":")[-1]
+        out.append(f'<v:{local} xmlns:v="{VENDOR}">vendor {p}</v:{local}>')
+        out.append(f'<v:block xmlns:v="{VENDOR}" xmlns:dc="http://purl.org/dc/elements/1.1/" '
+                   f'xmlns:cp="http://schemas.openxmlformats.org/package/2006/metadata/core-properties" '
+                   f'xmlns:meta="urn:oasis:names:tc:opendocument:xmlns:meta:1.0"><{t}>nested {p}</{t}></v:block>')
+        if unprefixed:
+            out.append(f"<{local}>unprefixed {p}</{local}>")
+    return "".join(out)
+
+
+OOXML_TAGS = (("title", "dc:title"), ("creator", "dc:creator"), ("subject", "dc:subject"), ("keywords", "cp:keywords"), ("description", "dc:description"))
+ODF_TAGS = (("title", "dc:title"), ("creator", "dc:creator"), ("subject", "dc:subject"), ("keywords", "meta:keyword"), ("description", "dc:description"))
+EPUB_TAGS = tuple((p, "dc:" + p) for p in ("title", "creator", "subject", "description"))
+
+
 def esc(s):
     return s.replace("&", "&amp;").replace("<", "&lt;")
 
@@ -55,7 +84,10 @@ def rezip(path, repl):
 
 
 def ooxml(fixture):
-    return rezip(os.path.join(RES, fixture), {"docProps/core.xml": lambda d: CORE.format(**{k: esc(v) for k, v in CUR.items()}).encode("utf-8")})
+    def core(d):
+        s = CORE.format(**{k: esc(v) for k, v in CUR.items()})
+        return s.replace("<dc:title>", decoys(OOXML_TAGS) + "<dc:title>", 1).encode("utf-8")
+    return rezip(os.path.join(RES, fixture), {"docProps/core.xml": core})
 
 
 def odf(fixture):
@@ -67,7 +99,7 @@ def odf(fixture):
         s = re.sub(r"<(dc:title|dc:creator|dc:subject|meta:keyword|dc:description)/>", "", s)
         if "xmlns:dc=" not in s:
             s = s.replace("<office:document-meta ", '<office:document-meta xmlns:dc="http://purl.org/dc/elements/1.1/" ', 1)
-        return re.sub(r"(<office:meta[^>]*>)", lambda m: m.group(1) + body, s, count=1).encode("utf-8")
+        return re.sub(r"(<office:meta[^>]*>)", lambda m: m.group(1) + decoys(ODF_TAGS) + body, s, count=1).encode("utf-8")
     return rezip(os.path.join(RES, fixture), {"meta.xml": meta})
 
 
@@ -79,13 +111,19 @@ def epub(fixture):
         s = d.decode("utf-8")
         s = re.sub(r"<dc:(title|creator|subject|description)[^>]*>.*?</dc:\1>", "", s, flags=re.S)
         body = "".join(f"<dc:{p}>{esc(CUR[p])}</dc:{p}>" for p in ("title", "creator", "subject", "description"))
-        return re.sub(r"(<(?:opf:)?metadata[^>]*>)", lambda m: m.group(1) + body, s, count=1).encode("utf-8")
+        return re.sub(r"(<(?:opf:)?metadata[^>]*>)", lambda m: m.group(1) + decoys(EPUB_TAGS) + body, s, count=1).encode("utf-8")
     return rezip(path, {opf: fix})
 
 
 def html():
     v = {k: esc(x).replace('"', "&quot;") for k, x in CUR.items()}
-    return (f'<html><head><title>{v["title"]}</title><meta name="author" content="{v["creator"]}">'
+    pre = ""
+    if LAYOUT == "decoys":
+        # other <meta> vocabularies naming the same things (RDFa property=, microdata itemprop=, Dublin Core / Open Graph names)
+        pre = "".join(f'<meta property="{n}" content="property {n}"><meta itemprop="{n}" content="itemprop {n}">'
+                      f'<meta name="dc.{n}" content="dc {n}"><meta name="og:{n}" content="og {n}"><meta name="x-{n}" content="x {n}">'
+                      for n in ("author", "keywords", "description", "title"))
+    return (f'<html><head>{pre}<title>{v["title"]}</title><meta name="author" content="{v["creator"]}">'
             f'<meta name="keywords" content="{v["keywords"]}"><meta name="description" content="{v["description"]}"></head><body><p>x</p></body></html>').encode("utf-8")
 
 
@@ -115,10 +153,22 @@ def first_fixture(d, ext):
 CUR = VALUES
 
 
+DECOY_READERS = ("docx", "pptx", "odf", "epub", "html")      # xlsx: the reader's library refuses a core.xml with unknown children
+
+
 def run_case(reader, extra_sets=()):
     """All value sets; returns (mismatches, document name)."""
-    global CUR
+    global CUR, LAYOUT
     out, name = [], reader
+    if reader in DECOY_READERS:
+        LAYOUT = "decoys"
+        try:
+            bad, name = _run_case(reader)
+            out.extend((p, f, want, got, "[layout: same-named vendor / nested / unprefixed elements before the genuine ones]") for p, f, want, got in bad)
+        except Exception:  # noqa -- a part the reader's parser refuses is no document to judge
+            pass
+        finally:
+            LAYOUT = "plain"
     for vs in list(extra_sets) + VALUE_SETS:
         CUR = vs
         try:
@@ -163,7 +213,8 @@ def find(ob, strings=None):
             continue
         bad = [b for b in bad if prop in (None, b[0])] or ([] if prop else bad)
         if bad:
-            p, f, want, got = bad[0]
-            return {"reproduced": True, "target": f"metadata reader ({r})", "inputs": {"document": name, "property": p, "stored_value": want},
+            p, f, want, got, *layout = bad[0]
+            return {"reproduced": True, "target": f"metadata reader ({r})",
+                    "inputs": dict({"document": name, "property": p, "stored_value": want}, **({"layout": layout[0]} if layout else {})),
                     "expected": f"get_metadata().{f} == {want!r}", "observed": f"{f} = {got!r}"}
     return {"reproduced": False, "note": "metadata readers report the stored properties unchanged on the crafted documents"}
